@@ -100,6 +100,24 @@ CLAIMS = {
         note="NOT decided: numpy C formatting (half-unit rounding, no exponent) - stubbed contract; "
              "IEEE rounding outside the claim",
         ref="§4 C08"),
+    "C10": dict(
+        text="ONLY the plain-Python geometry handed to the sampler: z3 shows for all start/target/centre/"
+             "pitch values that thread() hands helix() a centre equidistant from start and target and "
+             "max(1, floor(|dz|/pitch)) turns, circle() hands arc() a target equal to the start, spiral() "
+             "the start as centre, arc/helix compute centre = start + offset and an absolute target, "
+             "polyline visits exactly the given points; Direction.enforce keeps sign and end point.",
+        note="vertices, radius along the path, sweep, monotonicity, Z linearity, spline proximity "
+             "are NOT examined (numpy/scipy sampling is outside the technique); sampler entry points "
+             "are replaced by recorders",
+        ref="§4 C10"),
+    "C11": dict(
+        text="Two builders (absolute / relative) receive the same logical toolpath from the same "
+             "symbolic start: z3 shows equal interpreted machine positions for move/rapid/bypass moves/"
+             "mode contexts (1-2 waypoints), and identical absolute pre-sampling geometry for arc, "
+             "helix, arc_radius (chord), circle, thread, spiral, spline control points, polyline vertices.",
+        note="sampled vertices are not compared (numpy/scipy); relies on the tracer frame condition "
+             "(AST scan) that the sampler depends only on the captured geometry",
+        ref="§4 C11"),
     "C07": dict(
         text="Inductive step of I7: after any of 96 call shapes from an arbitrary consistent state "
              "(symbolic feed, power, temperatures, E parameter, tool number) every state property "
